@@ -74,20 +74,29 @@ def main():
     built = {fn[:-3].upper() for fn in os.listdir(os.path.join(ROOT, 'fsicverif', 'props')) if fn.startswith('c')}
     items = [c for c in items if c[1] in built]
     out = []
-    with concurrent.futures.ThreadPoolExecutor(max_workers=4) as ex:
+    path = os.path.join(ROOT, 'selftest_results.json')
+
+    def save():
+        old = {}
+        if os.path.exists(path):
+            old = {r['name']: r for r in json.load(open(path))}
+        for r in out:
+            old[r['name']] = r
+        json.dump(sorted(old.values(), key=lambda r: r['name']), open(path, 'w'), indent=1)
+
+    if filters:
+        # in the order of the filters given (so that a long run can be cut short after the parts that matter most)
+        items.sort(key=lambda c: min(i for i, f in enumerate(filters) if f in c[0]))
+    with concurrent.futures.ThreadPoolExecutor(max_workers=int(os.environ.get('SELFTEST_WORKERS', '4'))) as ex:
         for r in ex.map(run_one, items):
             out.append(r)
+            if len(out) % 8 == 0:
+                save()          # (results survive an interrupted run)
             keys = (r.get('checks', {}).get(r['property'], {}) or {}).get('keys', [])
             print(f"{r['result']:14s} {r['name']:40s} {r.get('wall_s', '')}s  {keys[:2]}", flush=True)
             if r['result'] in ('harness-error', 'patch-failed'):
                 print('   ', r.get('detail') or r['checks'])
-    path = os.path.join(ROOT, 'selftest_results.json')
-    old = {}
-    if os.path.exists(path):
-        old = {r['name']: r for r in json.load(open(path))}
-    for r in out:
-        old[r['name']] = r
-    json.dump(sorted(old.values(), key=lambda r: r['name']), open(path, 'w'), indent=1)
+    save()
     bad = [r for r in out if r['result'] != 'killed']
     print(f'{len(out) - len(bad)}/{len(out)} killed')
     return 1 if bad else 0
